@@ -1,4 +1,5 @@
 (* Props/C08.v — property C08: fail-fast. *)
+From CV Require Proofs.Compose2 Model.StatsSpec.
 From CV Require Proofs.SchedP12.
 From CV Require Import Model.Base Model.Events Model.Contract Model.Sched Proofs.BaseP Proofs.SchedP Proofs.SchedP2 Proofs.SchedP3
   Proofs.SchedP4 Proofs.SchedP7.
@@ -70,3 +71,22 @@ Example C08_late_starters_nonvacuous :
   SchedP12.n_disp [(mk_entry 1 None 11 false None None None 1 0, Opened);
                    (mk_entry 1 None 12 false None None None 1 0, Dispatched)] = 1%nat.
 Proof. reflexivity. Qed.
+
+
+(* ---------- "fails finally" in terms of what the attempt's end carries (review finding H2): the end of an attempt
+   makes a fail-fast drain trip exactly when its flag says failed and its Finished event carries no retry left; with
+   `Compose2.faithful` the flag is what the attempt's events in the stream show (`C05_flag_is_what_the_stream_shows`) *)
+Theorem C08_end_trips_iff_failed_with_no_retry_left :
+  forall c s1 k b s2 f r sc rt,
+    step c s1 (LAttEnd k b) = Some (s2, [EvScen f r sc rt ScFinished]) ->
+    exists m, msgs s2 = msgs s1 ++ [m] /\
+              (m_failed m && negb (m_retried m))%bool = (b && negb (StatsSpec.retries_left rt))%bool.
+Proof. exact Compose2.end_message_trips_iff_final_failure. Qed.
+Print Assumptions C08_end_trips_iff_failed_with_no_retry_left.
+
+Theorem C08_final_failure_trips_the_next_drain :
+  forall c s1 k s2 f r sc rt,
+    step c s1 (LAttEnd k true) = Some (s2, [EvScen f r sc rt ScFinished]) -> StatsSpec.retries_left rt = false ->
+    forall fl fc rc, snd (fst (fst (drain true (msgs s2) fl fc rc))) = Break.
+Proof. exact Compose2.final_failure_trips_fail_fast. Qed.
+Print Assumptions C08_final_failure_trips_the_next_drain.
